@@ -196,6 +196,23 @@ type driver struct {
 }
 
 func (d *driver) feed(s step) {
+	if s.Kind == "R" { // the stream ends and the same name is published again: a new muxer on the same directory
+		w := d.w
+		w.m.Dispose()
+		w.versions = nil // (MEDIA-SEQUENCE monotonicity is per incarnation; the playlist on disk stays the last one seen)
+		// segment names carry the wall-clock millisecond of their creation: a re-publish happens later (the
+		// fake clock is shared by all executions; it only ever moves forward)
+		hls.Clock.Add(time.Second)
+		w.m = hls.NewMuxer("s", &hls.MuxerConfig{OutPath: w.root + "/", FragmentDurationMs: fragMs, FragmentNum: w.c.FragNum, DeleteThreshold: w.c.DelThr, CleanupMode: w.c.Cleanup}, nil)
+		w.m.Start()
+		v, a := 7, 10
+		if w.c.AudioOnly {
+			v = -1
+		}
+		w.m.FeedPatPmt(append(mpegts.PackPat(), mpegts.PackPmt(v, a)...))
+		d.ts += 90 * 1000 // the new publisher's clock is unrelated; here one second later
+		return
+	}
 	dt := int64(s.Dt * fragMs * 90)
 	if dt < 0 && uint64(-dt) > d.ts {
 		d.ts = 0
@@ -374,6 +391,32 @@ func main() {
 		}
 		gen(nil)
 	}
+	// re-publishing: every sequence of <= 2 frames, the stream ends, the same name is published again,
+	// <= 2 frames (timestamp steps 1.0 and 1.6 only)
+	nrep := 0
+	for _, c := range cfgs {
+		var parts [][]step
+		parts = append(parts, nil)
+		for _, k1 := range kindsOf(c) {
+			parts = append(parts, []step{{k1, 1.0}})
+			for _, k2 := range kindsOf(c) {
+				for _, d2 := range []float64{1.0, 1.6} {
+					parts = append(parts, []step{{k1, 1.0}, {k2, d2}})
+				}
+			}
+		}
+		for _, a := range parts {
+			for _, b := range parts {
+				if len(a) == 0 && len(b) == 0 {
+					continue
+				}
+				seq := append(append(append([]step{}, a...), step{"R", 0}), b...)
+				runSeq(r, c, seq)
+				nrep++
+			}
+		}
+	}
+	r.Cov("republish_sequences", nrep)
 	var nseq int64
 	var capped int32
 	r.Cov("max_sequence_length", maxLen)
